@@ -169,13 +169,23 @@ def generate(coq_dir, record_hashes=False):
     combs = sorted({c for _, c in D.unicode_accents_list})
     uni = universe(db)
     nfc = []
+    lvl1 = set()
     for b in uni:
+        for c in combs:
+            lvl1.update(unicodedata.normalize('NFC', b + c))
+    # bases: the universe, the combining marks themselves (an accent macro applied to an accent macro:
+    # NFC reorders marks by combining class) and the characters composed at the first level
+    for b in sorted(set(uni) | set(combs) | lvl1):
         for c in combs:
             r = unicodedata.normalize('NFC', b + c)
             if r != b + c:
                 nfc.append('(%d, %d, %s)' % (ord(b), ord(c), c_str(r)))
     upper = []
+    composed = set()
     for b in uni:
+        for c in combs:
+            composed.update(unicodedata.normalize('NFC', b + c))
+    for b in sorted(set(uni) | composed):
         u = b.upper()
         if u != b and not ('a' <= b <= 'z'):
             upper.append('(%d, %s)' % (ord(b), c_str(u)))
